@@ -15,6 +15,16 @@ func Order(n int, site string) []int {
 	return nil
 }
 
+// OrderCtxFn is Order with the caller's context (identity-scoped visit counters).
+var OrderCtxFn func(ctx context.Context, n int, site string) []int
+
+func OrderCtx(ctx context.Context, n int, site string) []int {
+	if f := OrderCtxFn; f != nil {
+		return f(ctx, n, site)
+	}
+	return Order(n, site)
+}
+
 // YieldFn, when set, is called at instrumented statement boundaries and lock sites.
 var YieldFn func(ctx context.Context, site string)
 
